@@ -15,11 +15,11 @@ namespace CC.Props.C19
 open CC.Sched CC.Generated
 
 /-- every API function, with its calls to `encaps` / `decaps` expanded, is well nested -/
-theorem table_wellNested :
+theorem table_wellNested : locksAvailable = true →
     lockTable.all (fun p => wellNested false (expand lockTable p.2)) = true := by decide
 
 /-- after expansion no call to a locking function remains unresolved -/
-theorem table_callFree :
+theorem table_callFree : locksAvailable = true →
     lockTable.all (fun p => (expand lockTable p.2).all (fun e => match e with | .call _ => false | _ => true)) = true := by
   decide
 
@@ -30,7 +30,7 @@ def drawingFunctions : List String :=
   ["api::setup", "api::update_msk", "api::rekey", "api::generate_user_secret_key", "api::refresh_usk",
    "api::recaps", "api::encaps", "api::decaps", "api::encrypt", "header::generate"]
 
-theorem drawing_functions_lock :
+theorem drawing_functions_lock : locksAvailable = true →
     drawingFunctions.all (fun f => match lockTable.lookup f with
       | some evs => (expand lockTable evs).contains .acq
       | none => false) = true := by decide
